@@ -69,6 +69,8 @@ class World:
         self.timeout = None
         self.silence = 0
         self.cancelled_reads = 0
+        self.delivered = []  # (time, message type) of every message handed to the peer by the message-level transport
+        self.fsm_t = []      # (time, from, to)
 
 
 WORLD = World()
@@ -242,7 +244,10 @@ class FakeConn:
         if kind == 'hdr':
             from exabgp.reactor.network.error import NotifyError
             return ev[3] if len(ev) > 3 else 0, 0, memoryview(b'\xff' * 19), memoryview(b''), NotifyError(ev[1], ev[2], 'header fault')
-        _, t, body = ev
+        t, body = ev[1], ev[2]
+        if len(ev) > 3:
+            WORLD.now += ev[3]      # the message took that long to arrive (shorter than the caller's read timeout)
+        WORLD.delivered.append((WORLD.now, t))
         n = 19 + len(body)
         hdr = b'\xff' * 16 + struct.pack('!HB', n, t)
         return n, t, memoryview(hdr), body if not isinstance(body, (bytes, bytearray)) else memoryview(bytes(body)), None
@@ -377,6 +382,7 @@ def new_peer(neighbor, script, connect_result='ok', fail_write_after=None):
 
     def change(state):
         WORLD.fsm.append((peer.fsm.state.name, state.name))
+        WORLD.fsm_t.append((WORLD.now, peer.fsm.state.name, state.name))
         return orig_change(state)
     peer.fsm.change = change
     peer._conn_args = (script, connect_result, fail_write_after)
